@@ -261,21 +261,20 @@ Qed.
 
 Lemma in_callee_saved g x :
   In x (lint_callee_saved g) <->
-  exists l fid f e r w, In (l, fid) (glabelfn g) /\ nth_opt (gfuncs g) fid = Some f /\
+  exists f e r w, In f (gfuncs g) /\
     node_at g (fexit f) e /\ In r (rs_elems callee_saved_set) /\ is_original_value (rin e) r = false /\
     In w (error_ranges_for_first_store (gnodes g) (fexit f) r) /\
     x = lint1 LOverwriteCalleeSavedRegister w.
 Proof.
   unfold lint_callee_saved. rewrite in_flat_map. split.
-  - intros ([l fid] & Hlf & Hin). simpl snd in Hin.
-    destruct (nth_opt (gfuncs g) fid) as [f|] eqn:Hf; [|destruct Hin].
+  - intros (f & Hf & Hin).
     unfold getn in Hin. destruct (nth_opt (gnodes g) (fexit f)) as [e|] eqn:He; [|destruct Hin].
     apply in_flat_map in Hin. destruct Hin as (r & Hr & Hin).
     destruct (is_original_value (rin e) r) eqn:Ho; [destruct Hin|].
     apply in_map_iff in Hin. destruct Hin as (w & <- & Hw).
-    exists l, fid, f, e, r, w. auto 10.
-  - intros (l & fid & f & e & r & w & Hlf & Hf & He & Hr & Ho & Hw & ->).
-    exists (l, fid). split; [exact Hlf|]. simpl snd. rewrite Hf.
+    exists f, e, r, w. auto 10.
+  - intros (f & e & r & w & Hf & He & Hr & Ho & Hw & ->).
+    exists f. split; [exact Hf|].
     unfold getn. unfold node_at in He. rewrite He.
     apply in_flat_map. exists r. split; [exact Hr|]. rewrite Ho.
     apply in_map. exact Hw.
@@ -470,7 +469,7 @@ Proof.
                 |i c p pc Hc Hfe Hp Hpc Hpe Huj Hne
                 |i c rd Hc Hrd Hs Hu Ho
                 |i c r Hc Hw Hs Hne Ho E1 E2
-                |lb fid f e r w Hlf Hf He Hr Ho Hw
+                |f e r w Hf He Hr Ho Hw
                 |i c off r2 off2 Hc Hbefore Hr Hu H2 Hsum].
   - exists (lint1 LSaveToZero (op_loc r)). split; [|split; [reflexivity|left; reflexivity]].
     pick_lint 1%nat. apply in_save_to_zero. exists i, c, r. auto.
@@ -491,7 +490,7 @@ Proof.
   - exists (lint1 LLostRegisterValue (op_loc r)). split; [|split; [reflexivity|left; reflexivity]].
     pick_lint 10%nat. apply in_lost. exists i, c, r. auto 10.
   - exists (lint1 LOverwriteCalleeSavedRegister w). split; [|split; [reflexivity|left; reflexivity]].
-    pick_lint 8%nat. apply in_callee_saved. exists lb, fid, f, e, r, w. auto 10.
+    pick_lint 8%nat. apply in_callee_saved. exists f, e, r, w. auto 10.
   - exists (lint1 LInvalidStackOffsetUsage (node_loc c)). split; [|split; [reflexivity|left; reflexivity]].
     pick_lint 7%nat. unfold lint_stack. subst r2.
     apply (stack_loop_offset (gnodes g) i c off off2 Hc); auto.
@@ -602,7 +601,7 @@ Proof.
         try (exists i, c, (sp_state_of c); rewrite Es; split; [exact Hfb|reflexivity]).
     + apply due_lint1; [reflexivity|]. eapply T_stack_offset_usage; eauto.
       intros j cj Hj Hcj. apply sp_fine_iff. exact (Hbefore j cj Hj Hcj).
-  - apply in_callee_saved in H. destruct H as (l & fid & f & e & r & w & Hlf & Hf & He & Hr & Ho & Hw & ->).
+  - apply in_callee_saved in H. destruct H as (f & e & r & w & Hf & He & Hr & Ho & Hw & ->).
     apply due_lint1; [reflexivity|]. eapply T_overwrite_callee_saved; eauto.
   - apply in_garbage_read in H. destruct H as (i & c & rd & Hc & Hrd & Hs & Hu & Ho & ->).
     apply due_lint1; [reflexivity|]. eapply T_saved_garbage_read; eauto.
